@@ -14,6 +14,8 @@ def dispatch : P String := do
     | "surv" => compSurv
     | "repl" => compRepl
     | "gen" => compGen
+    | "crowd" => compCrowd
+    | "crowd3" => compCrowd3
     | "spacing" => compSpacing
     | "spnn" => compSpnn
     | "fitsort" => compFitsort
